@@ -74,8 +74,10 @@ CHECKS = {
                 "buffers) and finalize against the ghost content of the wrapped writer: writer content followed by "
                 "the buffer always equals everything appended, in order, for every buffer size >= 1 and every append "
                 "sequence. Bounded (not proof): every reader and writer class on the installed pandas/pyarrow over "
-                "small tables, all chunk sizes, column subsets, row-group layouts and append sequences. Two bounded "
-                "findings are listed in known_findings.json.",
+                "small tables, all chunk sizes, column subsets, row-group layouts and append sequences; callers that "
+                "go on using the list / dict / frame / record they handed to append_data are covered by this part "
+                "only (object identity is outside the value-semantic contracts; the defect found there is repaired, "
+                "fix 258005e). Two bounded findings are listed in known_findings.json.",
         "design_ref": "DESIGN.md 4.C13",
         "note": "frames / lists of dicts / record arrays are one value-semantic row sequence; the wrapped writer's "
                 "append_data is an assumed contract (ghost sink); Records buffers, CSV/Parquet readers and value "
@@ -109,8 +111,10 @@ CHECKS = {
                 "otherwise every collection gets the values of the feature with the (first) maximal pass count "
                 "together with that feature's direction. Bounded (not proof): brew "
                 "with estimators that cannot learn, three label encodings, both feature directions, Parquet and text; "
-                "direction handling of assign_confidence. Three bounded findings (direction ignored, best_feat values, "
-                "NaN scores from a constant estimator) are listed in known_findings.json.",
+                "direction handling of assign_confidence; fold layouts in which one fold's model cannot see the "
+                "informative feature. Two bounded findings (direction ignored by assign_confidence, NaN scores from "
+                "a constant estimator) are listed in known_findings.json; the best_feat values defect is repaired "
+                "(fix 17c51fb).",
         "design_ref": "DESIGN.md 4.C07",
         "note": "reader contract assumed (read(columns=[c]) returns column c of the file); DataFrame modelled as "
                 "abstract frame with int/bool column views; in brew#fallback the model attributes are read-only functions "
